@@ -34,9 +34,10 @@ const (
 	Uint
 	Float32
 	Float64
+	Num // normalised integer: Neg + magnitude in Bits (see Normalise)
 )
 
-var kindNames = [...]string{"?", "{", "}", "K", "[", "]", "nil", "bool", "str", "i8", "i16", "i32", "i64", "int", "byte", "u8", "u16", "u32", "u64", "uint", "f32", "f64"}
+var kindNames = [...]string{"?", "{", "}", "K", "[", "]", "nil", "bool", "str", "i8", "i16", "i32", "i64", "int", "byte", "u8", "u16", "u32", "u64", "uint", "f32", "f64", "num"}
 
 func (k Kind) String() string { return kindNames[k] }
 
@@ -47,6 +48,7 @@ type Event struct {
 	Len  int
 	BT   structform.BaseType
 	Bits uint64
+	Neg  bool // Num only
 	Str  []byte
 }
 
@@ -134,6 +136,7 @@ func Equal(a, b []Event) bool {
 			return false
 		}
 		ok = rt.And(ok, a[i].Bits == b[i].Bits)
+		ok = rt.And(ok, a[i].Neg == b[i].Neg)
 		ok = rt.And(ok, rt.BytesEq(a[i].Str, b[i].Str))
 	}
 	return ok
@@ -143,7 +146,7 @@ func Equal(a, b []Event) bool {
 func Serialize(evs []Event) []byte {
 	var out []byte
 	for _, e := range evs {
-		out = append(out, byte(e.K), byte(e.Len), byte(e.BT))
+		out = append(out, byte(e.K), byte(e.Len), byte(e.BT), rt.IteU8(e.Neg, 1, 0))
 		for s := 56; s >= 0; s -= 8 {
 			out = append(out, byte(e.Bits>>uint(s)))
 		}
@@ -156,3 +159,29 @@ func Serialize(evs []Event) []byte {
 func IsInt(k Kind) bool    { return k >= Int8 && k <= Uint }
 func IsSigned(k Kind) bool { return k >= Int8 && k <= Int }
 func IsFloat(k Kind) bool  { return k == Float32 || k == Float64 }
+
+// NumEvent builds a normalised integer event from sign and magnitude.
+func NumEvent(neg bool, mag uint64) Event { return Event{K: Num, Neg: neg, Bits: mag} }
+
+// Normalise maps an event list to the value it describes, dropping what the
+// properties call representation: every integer event (any width, signed or
+// unsigned, and OnByte) becomes Num(sign, magnitude); announced lengths and
+// element types of containers are dropped. Floats, strings, bools, nil and the
+// nesting structure are kept as they are.
+func Normalise(evs []Event) []Event {
+	out := make([]Event, 0, len(evs))
+	for _, e := range evs {
+		switch {
+		case e.K == ObjStart || e.K == ArrStart:
+			out = append(out, Event{K: e.K})
+		case IsSigned(e.K):
+			neg := int64(e.Bits) < 0
+			out = append(out, Event{K: Num, Neg: neg, Bits: rt.IteU64(neg, -e.Bits, e.Bits)})
+		case IsInt(e.K):
+			out = append(out, Event{K: Num, Bits: e.Bits})
+		default:
+			out = append(out, e)
+		}
+	}
+	return out
+}
